@@ -2,6 +2,7 @@
 # pickled. Inspired by example here https://stackoverflow.com/a/57190433
 
 import dill
+from func_timeout import FunctionTimedOut
 import multiprocessing
 import pickle
 import traceback
@@ -102,7 +103,9 @@ class ParallelMap:
                 result = function(
                     *args, equilibrium=equilibrium, psi=psi, f_R=f_R, f_Z=f_Z, **kwargs
                 )
-            except Exception as e:
+            except (Exception, FunctionTimedOut) as e:
+                # FunctionTimedOut (raised when refine_timeout expires) derives from
+                # BaseException
                 result = _TaskError(e)
             result_queue.put((i, result))
 
